@@ -272,6 +272,7 @@ theorem emit_draw_md (o : Char) (n : Nat) (ho : Md.opArgCount o = some n) (hn : 
     | (obtain ⟨a0, a1, a2, a3, rfl⟩ := len4 ha; rfl)
     | (obtain ⟨a0, a1, a2, a3, a4, a5, rfl⟩ := len6 ha; rfl)
 
+omit [Arith α] in
 theorem emit_z_md (o : Char) (ho : Md.opArgCount o = some 0) (started : Bool) (adj : UInt8) :
     Md.emitOp o started adj ([] : List α) = [] := by
   unfold Md.opArgCount at ho
